@@ -228,6 +228,49 @@ def _(c):
         c.ensure("back", bool(np.all(np.abs(back - C) <= 1e-7 * sc0)))
 
 
+def _grid_moved(tier, rng):
+    """start frame in 3 non-rotating frames x the frame the STATE is moved to first {ITRF, PEF, TIRF, TOD, GCRF} (in place or through a converted copy) x final target of the
+    covariance {QSW, TNW, start, ITRF, MOD} x 2 states"""
+    for si in (0, 3, 4):
+        for mv in range(5):
+            for how in (0, 1):
+                for tg in range(5):
+                    yield {"start": si, "moved_to": mv, "how": how, "target": tg, "state": (si + mv + tg) % 2}
+
+
+@contract("C14", "state_moved_first", funcs=[f"{SV}:StateVector.frame.fset", f"{COV}:Cov.frame.fset", f"{COV}:Cov.orb.fset", f"{COV}:Cov.__new__"], grid=_grid_moved, level="bounded")
+def _(c):
+    """bounded: a covariance expressed in its state's (inertial) frame follows the state when the STATE is moved to another frame -- Earth-fixed ones included -- and when it
+    is then expressed in QSW / TNW (or any other frame) the result is still R C R^T for the rotation from the original axes, QSW / TNW being defined by the INERTIAL position
+    and velocity the covariance was attached with; going back restores the original matrix"""
+    from beyond.orbits.cov import Cov
+    from beyond.frames.frames import get_frame
+    start = INERTIAL[c.integer("start") % len(INERTIAL)]
+    sv, C = _real_setup(start, start, 1, state=c.integer("state"))
+    sv0 = sv.copy()
+    sv.cov = Cov(sv, C, get_frame(start))
+    moved_to = ["ITRF", "PEF", "TIRF", "TOD", "GCRF"][c.integer("moved_to")]
+    if c.integer("how") == 0:
+        sv.frame = moved_to
+        holder = sv
+    else:
+        holder = sv.copy(frame=moved_to)
+    want_follow = _direct(sv0, C, start, moved_to)
+    got_follow = np.asarray(holder.cov, dtype=float)
+    sc = np.sqrt(np.abs(np.outer(np.diag(want_follow), np.diag(want_follow)))) + 1e-30
+    c.ensure("follows_the_state", bool(str(holder.cov.frame) == moved_to and np.all(np.abs(got_follow - want_follow) <= 1e-7 * sc)))
+    target = ["QSW", "TNW", start, "ITRF", "MOD"][c.integer("target")]
+    holder.cov.frame = target
+    want = _direct(sv0, C, start, target)
+    got = np.asarray(holder.cov, dtype=float)
+    sc = np.sqrt(np.abs(np.outer(np.diag(want), np.diag(want)))) + 1e-30
+    c.ensure("then_expressed_elsewhere", bool(np.all(np.abs(got - want) <= 1e-7 * sc)))
+    holder.cov.frame = start
+    back = np.asarray(holder.cov, dtype=float)
+    sc0 = np.sqrt(np.outer(np.diag(C), np.diag(C))) + 1e-30
+    c.ensure("back", bool(np.all(np.abs(back - C) <= 1e-7 * sc0)))
+
+
 @contract("C14", "setter.by_name", funcs=[f"{COV}:Cov.frame.fset"])
 def _(c):
     """a frame given by name is resolved through get_frame; QSW/TNW names are kept as local frames"""
